@@ -100,9 +100,13 @@ func checkFullForest(in *Inst, f *model.Forest, notFound []Hash, hashEverywhere 
 		if err != nil {
 			return fmt.Errorf("%s: Prove(slots %v) failed: %v", in.Cfg, sub, err)
 		}
+		if err := in.checkHeld(); err != nil {
+			return err
+		}
 		if !eqProof(got, want) {
 			return fmt.Errorf("%s: Prove(slots %v) = %s, canonical %s", in.Cfg, sub, proofStr(got), proofStr(want))
 		}
+		in.hold("Prove", got.Targets, got.Proof)
 	}
 	if in.P != nil {
 		if int(in.P.NumLeaves-in.P.NumDels) != len(live) || len(in.P.NodeMap) != len(live) {
@@ -206,9 +210,13 @@ func checkPartialForest(in *Inst, f *model.Forest, tracked []int, exactCache boo
 		if err != nil {
 			return fmt.Errorf("%s: Prove(remembered slots %v) failed: %v", in.Cfg, sub, err)
 		}
+		if err := in.checkHeld(); err != nil {
+			return err
+		}
 		if !eqProof(got, want) {
 			return fmt.Errorf("%s: Prove(remembered slots %v) = %s, canonical %s", in.Cfg, sub, proofStr(got), proofStr(want))
 		}
+		in.hold("Prove", got.Targets, got.Proof)
 	}
 	return nil
 }
@@ -297,6 +305,13 @@ func genHigh(t *rapid.T, maxLeaves int) uint64 {
 	high := uint64(1) << uint(k)
 	if k < 62 && rapid.Bool().Draw(t, "morehigh") {
 		high |= uint64(1) << uint(rapid.IntRange(k+1, 62).Draw(t, "highbit2"))
+	}
+	if low <= 28 && rapid.IntRange(0, 4).Draw(t, "manytrees") == 0 {
+		// dozens of opaque trees: a run of 30+ one bits, so that the real forest's roots have an index
+		// of 32 and more in the root list
+		s := low + rapid.IntRange(0, 3).Draw(t, "runstart")
+		c := rapid.IntRange(30, 62-s).Draw(t, "runlen")
+		high = ((uint64(1) << uint(c)) - 1) << uint(s)
 	}
 	return high
 }
